@@ -224,16 +224,18 @@ example : checkInteger false [0xff, 0x00, 0x01] = .ok () ∧ intOfBytes [0xff, 0
 
 /-- **`makeBigInt` as the working tree has it** (statement by statement, regenerated): for n < 0 invert the octets of −n−1 and put `ff` in
 front when the top bit is clear; 0 is one zero octet; for n > 0 the magnitude with `00` in front when the top bit is set. This is the
-algorithm whose output `intBytes` (minimal two's complement) models and against which it is compared on every run; any rewrite of the
-function changes these lists and this `decide` fails. (The equality of this algorithm with `intBytes` is tied by correspondence, not proved.) -/
+algorithm whose output `intBytes` (minimal two's complement) models and against which it is compared on every run. The pin is on what
+each sign case computes, found through whichever dispatch the source uses (if / else-if / else, or a switch over the sign, `sign := n.Sign()`
+followed through): re-shaping the dispatch leaves the lists unchanged, rewriting a case body changes them and this `decide` fails. (The equality of this algorithm with `intBytes` is tied by correspondence, not proved.) -/
 theorem makeBigInt_regenerated :
     Gen.makeBigIntNegative =
       ["nMinus1 := new(big.Int).Neg(n)", "nMinus1.Sub(nMinus1, bigOne)", "bytes := nMinus1.Bytes()",
        "for i := range bytes { bytes[i] ^= 0xff }",
        "if len(bytes) == 0 || bytes[0]&0x80 == 0 { return multiEncoder([]encoder{byteFFEncoder, bytesEncoder(bytes)}), nil }",
        "return bytesEncoder(bytes), nil"] ∧
-    Gen.makeBigIntZeroPositive =
-      ["return byte00Encoder, nil", "bytes := n.Bytes()",
+    Gen.makeBigIntZero = ["return byte00Encoder, nil"] ∧
+    Gen.makeBigIntPositive =
+      ["bytes := n.Bytes()",
        "if len(bytes) > 0 && bytes[0]&0x80 != 0 { return multiEncoder([]encoder{byte00Encoder, bytesEncoder(bytes)}), nil }",
        "return bytesEncoder(bytes), nil"] := by decide
 
